@@ -18,6 +18,8 @@ import (
 	"math/big"
 	mrand "math/rand"
 	"os"
+	"sync"
+	"sync/atomic"
 
 	"gitlab.com/yawning/obfs4.git/common/ntor"
 	ref "verif.local/harness/ref/obfs4"
@@ -110,6 +112,8 @@ func main() {
 			runCfgs(&s)
 		case "bind":
 			runBind(&s)
+		case "concurrent":
+			runConcurrent(&s)
 		case "kdf":
 			runKdf(&s)
 		}
@@ -317,4 +321,62 @@ func runKdf(s *scenario) {
 		}
 		w.Emit(vt.Ev{"event": "Kdf", "prefix_ok": prefix, "repeat_ok": repeat, "ref_eq": refeq})
 	}
+}
+
+// runConcurrent: the bridge runs one ServerHandshake per connection goroutine, clients dial concurrently: G goroutines,
+// each with its own fixed key set, repeat their handshake; every result must equal what the same call produced when it
+// ran alone (and the reference computation).  Shared state between calls shows as wrong outputs or panics.
+func runConcurrent(s *scenario) {
+	const G = 8
+	rng := mrand.New(mrand.NewSource(s.Seed))
+	type job struct {
+		wd   *world
+		c    cfg
+		X, Y [32]byte
+		sv   outs
+		cl   outs
+	}
+	jobs := make([]*job, G)
+	refOK := true
+	for g := range jobs {
+		wd := newWorld(rng)
+		c := cfg{"b1", "b1", "n1", "n1", "x1", "y1", "x1", "y1"}
+		j := &job{wd: wd, c: c, X: wd.seen("x1", wd.x), Y: wd.seen("y1", wd.y)}
+		var r outs
+		j.sv, r = wd.server(c, j.X)
+		refOK = refOK && same(j.sv, r)
+		j.cl, r = wd.client(c, j.Y)
+		refOK = refOK && same(j.cl, r)
+		jobs[g] = j
+	}
+	var wrong, panics int64
+	var wg sync.WaitGroup
+	start := make(chan struct{})
+	for g := 0; g < G; g++ {
+		wg.Add(1)
+		go func(j *job) {
+			defer wg.Done()
+			<-start
+			for i := 0; i < s.Reps; i++ {
+				func() {
+					defer func() {
+						if recover() != nil {
+							atomic.AddInt64(&panics, 1)
+						}
+					}()
+					ok, seed, auth := ntor.ServerHandshake(pk(j.X), j.wd.y[j.c.Y], j.wd.b[j.c.BSrv], j.wd.n[j.c.NSrv])
+					if !ok || !bytes.Equal(seed.Bytes()[:], j.sv.seed) || !bytes.Equal(auth.Bytes()[:], j.sv.auth) {
+						atomic.AddInt64(&wrong, 1)
+					}
+					ok, seed, auth = ntor.ClientHandshake(j.wd.x[j.c.X], pk(j.Y), j.wd.b[j.c.BCli].Public(), j.wd.n[j.c.NCli])
+					if !ok || !bytes.Equal(seed.Bytes()[:], j.cl.seed) || !bytes.Equal(auth.Bytes()[:], j.cl.auth) {
+						atomic.AddInt64(&wrong, 1)
+					}
+				}()
+			}
+		}(jobs[g])
+	}
+	close(start)
+	wg.Wait()
+	w.Emit(vt.Ev{"event": "Concurrent", "goroutines": G, "reps": s.Reps, "wrong": wrong, "panics": panics, "ref_ok": refOK})
 }
